@@ -31,6 +31,13 @@ func (e *Eval) bindParams(env *Env, fr *Frame) {
 	if fr.fn.Signature.Recv() != nil && len(fr.params) > 0 {
 		env.bind("self", fr.params[0], fr.fn.Params[0].Type())
 	}
+	for i, fv := range fr.fn.FreeVars {
+		// captured variables by source name (a variable captured by
+		// reference has pointer type: write *name)
+		if i < len(fr.free) {
+			env.bindIfAbsent(fv.Name(), fr.free[i], fv.Type())
+		}
+	}
 	for i, p := range fr.fn.Params {
 		if i < len(fr.params) {
 			env.bind(p.Name(), fr.params[i], p.Type())
@@ -146,8 +153,12 @@ func VerifyFunc(p *Program, key string, fn *ssa.Function, k *Contract) *FuncResu
 			}
 		}
 	}
-	if len(fn.FreeVars) > 0 {
-		c.Unsupported("closure %s verified as root", fn)
+	for _, fv := range fn.FreeVars {
+		// a closure verified on its own: captured variables are arbitrary
+		// values of their types (what the creation site guarantees about
+		// them is the closure contract's precondition, checked by the
+		// `at closure:<name>` clause of the creating function)
+		fr.free = append(fr.free, e.havocVal("fv."+fv.Name(), fv.Type(), "true"))
 	}
 	env := e.newEnv(pkg, e.entry, e.entry)
 	e.logicals = map[string]TV{}
